@@ -220,6 +220,26 @@ def keys(ctx: Any) -> List[Ob]:
     return obs
 
 
+
+def reset_ttl_obligations(ctx: Any, R: str) -> List[Ob]:
+    """What a refresh of a cached record does (shared by C05.REFRESH and C10.CONST: the browser plans its refresh queries from
+    the received copy, so the cache has to hold that copy's lifetime too)."""
+    rec = ctx.prog.cls(REC)
+    obs: List[Ob] = []
+    # reset_ttl copies (created, ttl) of the other record; set_created_ttl stores them to the right fields
+    rt = rec.methods['reset_ttl']
+    calls = [c for c in walk_local_ordered(rt.node) if isinstance(c, ast.Call) and call_name(c) == 'set_created_ttl']
+    other = rt.params[1]
+    good = len(calls) == 1 and [norm(a) for a in calls[0].args] == [f'{other}.created', f'{other}.ttl']
+    obs.append(ob(R, rt, calls[0] if calls else 'reset_ttl', 'a refresh takes creation time and TTL from the received record', good))
+    # ... whatever the two lifetimes are: a received copy with a shorter (or longer) lifetime replaces the cached one too -- RFC
+    # 6762 10 lets a responder lower a TTL, and a cache that keeps the longer lifetime disagrees with every lookup path's model
+    oc_rt, _ = traces(ctx, rt, {}, lambda node, evl: ['SET' for c in fd.node_calls(node, evl) if call_name(c) == 'set_created_ttl'], loop_bound=1)
+    per_path = sorted({strip_ret(t).count('SET') for t in oc_rt})
+    obs.append(ob(R, rt, 'reset_ttl(other)', 'the refresh is unconditional: every path through reset_ttl stores the received lifetime exactly once', per_path == [1], f'stores per path: {per_path}'))
+    return obs
+
+
 @rule('C05.OWN', 'D', expect_min=6)
 def own(ctx: Any) -> List[Ob]:
     """Ownership: the two index dictionaries (and their buckets) are mutated only
@@ -283,12 +303,7 @@ def own(ctx: Any) -> List[Ob]:
             raise AnalysisError(f'anchor vanished: DNSRecord.{nm}')
         for s in ctx.cg.callers_of(f):
             obs.append(ob(R, s.caller, s.node, f'{nm} is called only from its owners (floor/refresh in ingestion, flush mark in the cache)', s.caller.full in owners, owners.get(s.caller.full, 'not in the owner table')))
-    # reset_ttl copies (created, ttl) of the other record; set_created_ttl stores them to the right fields
-    rt = rec.methods['reset_ttl']
-    calls = [c for c in walk_local_ordered(rt.node) if isinstance(c, ast.Call) and call_name(c) == 'set_created_ttl']
-    other = rt.params[1]
-    good = len(calls) == 1 and [norm(a) for a in calls[0].args] == [f'{other}.created', f'{other}.ttl']
-    obs.append(ob(R, rt, calls[0] if calls else 'reset_ttl', 'a refresh takes creation time and TTL from the received record', good))
+    obs.extend(reset_ttl_obligations(ctx, R))
     sc = rec.methods['set_created_ttl']
     me, a, b = sc.params[0], sc.params[1], sc.params[2]
     st = {t.attr: norm(s.value) for t, s in attr_stores(sc.node) if isinstance(s, ast.Assign)}
@@ -561,7 +576,10 @@ def lifetime(ctx: Any) -> List[Ob]:
         for st in f.node.body:
             if isinstance(st, ast.Assign) and isinstance(st.targets[0], ast.Name):
                 env[st.targets[0].id] = lf.poly(prog, f.module, st.value, sym, env)
-        e = single_return_expr(f)
+        try:
+            e = single_return_expr(f, skip_assigns=True)
+        except AnalysisError as ex:
+            raise lf.NotLinear(f'the result is not one expression ({ex})')
         want_p = lf.parse_poly('(created + 1000*ttl - now) / 1000')
         if isinstance(e, ast.IfExp):
             tp, top = lf.comparison(prog, f.module, e.test, sym, env)
@@ -578,7 +596,7 @@ def lifetime(ctx: Any) -> List[Ob]:
             ok = ({} in ps) and (want_p in ps)
             why = ' , '.join(lf.p_str(p) for p in ps)
     except lf.NotLinear as ex:
-        why = f'not linear: {ex}'
+        why = f'not the linear form: {ex}'
     obs.append(ob(R, f, 'get_remaining_ttl', 'remaining TTL is max(0, (created + 1000*ttl - now) / 1000) seconds', ok, why))
     return obs
 
